@@ -49,6 +49,38 @@ Theorem echo_reply_matches :
 Proof. exact echo_reply_matches_proof. Qed.
 Print Assumptions echo_reply_matches.
 
+(* "an ICMP error quoting that request is reported ... with the responder's address, type and code": a Destination
+   Unreachable message is read whatever its code is (RFC 792 names 0..5, RFC 1122 and 1812 add 6..15, among them 13,
+   "communication administratively prohibited", a router's usual answer to a filtered ping; RFC 4443, 6550 and 8883 give
+   ICMPv6 0..8): type and code are kept and the body is the quoted datagram. The parser this model was first written
+   from knew the codes of RFC 792 / RFC 4443 only and dropped the others as malformed; the model had copied that. *)
+Theorem unreachable_parsed_with_any_code :
+  (forall code c1 c2 u1 u2 u3 u4 quoted,
+      ICMP_V4_MIN_MATCHING_DATA_SIZE <= lenN quoted ->
+      v4_deserialize (V4_DESTINATION_UNREACHABLE :: code :: c1 :: c2 :: u1 :: u2 :: u3 :: u4 :: quoted)
+      = Ok {| m_v6 := false; m_type := V4_DESTINATION_UNREACHABLE; m_code := code; m_body := BData quoted |})
+  /\ (forall code c1 c2 u1 u2 u3 u4 quoted,
+      MIN_IPV6_HEADER_SIZE <= lenN quoted ->
+      v6_deserialize (V6_DESTINATION_UNREACHABLE :: code :: c1 :: c2 :: u1 :: u2 :: u3 :: u4 :: quoted)
+      = Ok {| m_v6 := true; m_type := V6_DESTINATION_UNREACHABLE; m_code := code; m_body := BData quoted |}).
+Proof. split; [exact (v4_unreachable_any_code_proof eq_refl)|exact (v6_unreachable_any_code_proof eq_refl)]. Qed.
+Print Assumptions unreachable_parsed_with_any_code.
+
+(* ... and when it quotes an echo request the way routers do (IP header without options, then the first octets of the
+   datagram), the client is told: the 7.4 record carries the request's identifier and sequence number, the responder's
+   address, type 3 and the code as received *)
+Theorem unreachable_quoting_a_request_is_reported :
+  forall code c1 c2 u1 u2 u3 u4 a b k1 k2 id seq data peer,
+    lenN a = 8 -> lenN b = 10 -> id < 65536 -> seq < 65536 ->
+    exists m,
+      v4_deserialize (V4_DESTINATION_UNREACHABLE :: code :: c1 :: c2 :: u1 :: u2 :: u3 :: u4 ::
+                      69 :: a ++ [IPPROTO_ICMP] ++ b ++ V4_ECHO :: 0 :: k1 :: k2 :: to_be 2 id ++ to_be 2 seq ++ data)
+      = Ok m
+      /\ responded_echo_request m = Ok (Some (id, seq, data))
+      /\ icmp_encode peer m = Ok (Some (reply_record id peer V4_DESTINATION_UNREACHABLE code seq)).
+Proof. exact (v4_unreachable_reported_proof eq_refl). Qed.
+Print Assumptions unreachable_quoting_a_request_is_reported.
+
 (* packets from the network never panic the parsers (shared with C09) *)
 Theorem icmp_parsers_total :
   forall p, safe (v4_deserialize p) /\ safe (v6_deserialize p)
@@ -90,16 +122,80 @@ Theorem reply_goes_to_sender :
     wstep T cap s (WSend c k now) = (s1, o1) ->
     queue_len (queues s1) c < cap ->
     exists s2, wstep T cap s1 (WPacket k) = (s2, Some c).
-Proof. exact (reply_goes_to_sender_s eq_refl eq_refl eq_refl eq_refl). Qed.
+Proof. exact (reply_goes_to_sender_s eq_refl eq_refl eq_refl eq_refl eq_refl). Qed.
 Print Assumptions reply_goes_to_sender.
 
+(* "a pending request is forgotten after the request timeout": when the expiry has run at [now], every waiter and every
+   deadline left is younger than the timeout. [well_timed]: each waiter's deadline is in the list under a key that finds
+   it - IcmpSink::write makes the two together, and every step keeps it (waiters_stay_well_timed) *)
 Theorem expired_forgotten :
-  forall T cap s now d s' o,
-    NoDupIds (table s) -> In d (deadlines s) -> fst d <= now ->
+  forall T cap s now s' o,
+    NoDupIds (table s) -> well_timed s ->
     wstep T cap s (WExpire now) = (s', o) ->
-    (forall e, In e (table s') -> echo_eq (e_key e) (snd d) = false) /\ ~ In d (deadlines s').
-Proof. exact (expired_forgotten_s eq_refl eq_refl eq_refl eq_refl). Qed.
+    (forall e, In e (table s') -> now < e_deadline e) /\ (forall d, In d (deadlines s') -> now < fst d).
+Proof. exact (expired_forgotten_s eq_refl eq_refl eq_refl eq_refl eq_refl). Qed.
 Print Assumptions expired_forgotten.
+
+Theorem waiters_stay_well_timed :
+  forall T cap s o s' out,
+    NoDupIds (table s) -> well_timed s -> wstep T cap s o = (s', out) -> well_timed s'.
+Proof. exact (well_timed_step eq_refl eq_refl eq_refl eq_refl eq_refl). Qed.
+Print Assumptions waiters_stay_well_timed.
+
+(* ... and not before: a waiter whose own deadline lies ahead survives the expiry. The deadline entry of a request
+   that was answered stays in the list until it is due; the code this model was first written from let it remove
+   whatever waiter its key found then, i.e. the waiter of the same request sent again in the meantime (a client that
+   repeats a request right after its answer, or whose sequence numbers wrap within the timeout): that request was
+   forgotten early and its reply dropped as "Reply waiter not found". *)
+Theorem pending_until_its_timeout :
+  forall T cap s now s' o e,
+    wstep T cap s (WExpire now) = (s', o) ->
+    In e (table s) -> now < e_deadline e -> In e (table s').
+Proof. exact (pending_until_its_timeout_s eq_refl eq_refl eq_refl eq_refl eq_refl). Qed.
+Print Assumptions pending_until_its_timeout.
+
+(* stated on the requests themselves: whatever happened before (in particular whatever deadlines are still listed), a
+   request sent at t is answered to its sender by a packet arriving before t + T *)
+Theorem reply_reported_while_pending :
+  forall T cap s c k t s1 o1 now s2 o2,
+    wstep T cap s (WSend c k t) = (s1, o1) ->
+    now < t + T ->
+    wstep T cap s1 (WExpire now) = (s2, o2) ->
+    queue_len (queues s2) c < cap ->
+    exists s3, wstep T cap s2 (WPacket k) = (s3, Some c).
+Proof. exact (reply_while_pending_s eq_refl eq_refl eq_refl eq_refl eq_refl). Qed.
+Print Assumptions reply_reported_while_pending.
+
+Example ex_resent_request_outlives_the_old_deadline :
+  snd (wrun 1000 8 winit
+        [WSend 0 (7, 1, []) 0; WPacket (7, 1, []); WRecv 0; WSend 0 (7, 1, []) 600; WExpire 1200; WPacket (7, 1, [])])
+  = [None; Some 0; None; None; None; Some 0].
+Proof. vm_compute. reflexivity. Qed.
+
+(* "Each echo request read from the stream produces one echo": a request the endpoint cannot send (TTL 0, more data than
+   an IP packet holds, a destination the socket may not send to, no route) costs that request only. IcmpSink::write
+   answers Dropped - an error would end the client's whole stream in datagram_pipe - and the waiter made for it is
+   taken back; the other pending requests and the queues are as they were, and a packet that looks like the answer to
+   the unsent request is not reported. *)
+Theorem unsendable_request_is_dropped : SEND_ERROR_DROPS_THE_REQUEST = true.
+Proof. exact eq_refl. Qed.
+Print Assumptions unsendable_request_is_dropped.
+
+Theorem failed_send_spares_the_others :
+  forall T cap s c k now s' o,
+    wstep T cap s (WSendFailed c k now) = (s', o) ->
+    o = None /\ queues s' = queues s
+    /\ forall e, In e (table s) -> echo_eq (e_key e) k = false -> In e (table s').
+Proof. exact (failed_send_spares_the_others_s eq_refl). Qed.
+Print Assumptions failed_send_spares_the_others.
+
+Theorem failed_send_leaves_no_waiter :
+  forall T cap s c k now s' o,
+    NoDupIds (table s) -> compatible (table s) k ->
+    wstep T cap s (WSendFailed c k now) = (s', o) ->
+    wstep T cap s' (WPacket k) = (s', None).
+Proof. exact (failed_send_leaves_no_waiter_s eq_refl eq_refl). Qed.
+Print Assumptions failed_send_leaves_no_waiter.
 
 (* the model's table finds waiters by key equality; the real table is a HashMap, which finds a stored
    key only if it also hashes like the probe. With the hash confined to the identifier and sequence
@@ -126,11 +222,12 @@ Proof. exact eq_refl. Qed.
 Print Assumptions waiter_registered_before_send.
 
 Theorem pending_ids_stay_distinct :
-  forall t k c, NoDupIds t -> compatible t k ->
-    NoDupIds (insert_key t k c) /\ (forall k', NoDupIds (remove_key t k')).
+  forall t k c dl, NoDupIds t -> compatible t k ->
+    NoDupIds (insert_key t k c dl) /\ (forall k', NoDupIds (remove_key t k')) /\ (forall d, NoDupIds (remove_due t d)).
 Proof.
-  intros t k c H1 H2. split; [apply insert_key_NoDupIds; assumption|].
-  intros k'. apply remove_key_NoDupIds. exact H1.
+  intros t k c dl H1 H2. split; [apply insert_key_NoDupIds; assumption|]. split.
+  - intros k'. apply remove_key_NoDupIds. exact H1.
+  - intros d. apply remove_due_NoDupIds. exact H1.
 Qed.
 Print Assumptions pending_ids_stay_distinct.
 
